@@ -2,6 +2,7 @@
 import UflVerif.AuditCmd
 import UflVerif.Props.C05
 import UflVerif.Props.C06
+import UflVerif.Props.C07
 import UflVerif.Props.C08
 import UflVerif.Props.C13
 import UflVerif.Props.C19
